@@ -5,7 +5,7 @@ import ESV.Comp.CgCore
 namespace ESV.Comp
 open ESV ESV.Beh
 
-theorem agree_last {N : List Src.Node} {Z : Nat} {b b' : Src.B} {n : Src.Node} (ha : AgreeOn N Z b b') (hb : tbl b' = tbl b ++ [n]) :
+theorem agree_last {N : List Src.Node} {Z : Nat → Prop} {b b' : Src.B} {n : Src.Node} (ha : AgreeOn N Z b b') (hb : tbl b' = tbl b ++ [n]) :
     N[(tbl b).length]? = some n := by
   rw [ha.2 _ (Nat.le_refl _) (by rw [hb]; simp), hb]
   simp
@@ -20,7 +20,7 @@ structure SimpleOK (cx : Cx) (items : List LItem) (trf : Nat → Src.B → Src.B
   ne : items ≠ []
   nolone : loneJump items = none
   pushes : ∀ k b, Pushes b (trf k b).1
-  corr : ∀ r i0, Placed cx.rs r i0 items → afterCtxL cx.rs ⟨r, i0⟩ = false → ∀ k b, AgreeOn cx.N cx.Z b (trf k b).1 →
+  corr : ∀ r i0, Placed cx.cp cx.rs r i0 items → afterCtxL cx.rs ⟨r, i0⟩ = false → ∀ k b, AgreeOn cx.N cx.Z b (trf k b).1 →
     ∀ m j, (falls items = true → R2 cx m j ⟨r, i0 + items.length⟩ k) → R2 cx m j ⟨r, i0⟩ (trf k b).2
 
 theorem SimpleOK.grow {cx : Cx} {items : List LItem} {trf : Nat → Src.B → Src.B × Nat} (h : SimpleOK cx items trf) (k : Nat) (b : Src.B) :
@@ -33,18 +33,20 @@ theorem SimpleOK.piece {cx : Cx} {items : List LItem} {trf : Nat → Src.B → S
      ⟨h.corr r i0 hp hpre k b hag m j hcont, LabExport.same (fun i hi => (h.pushes k b).same hi)⟩⟩
 
 /-- a plain operation -/
-theorem op_simple (cx : Cx) (fuel : Nat) (n : String) (ps : List ESV.Param) (hn : nameOK n = true) {s : St} {items : List LItem} {s' : St}
+theorem op_simple (cx : Cx) (fuel : Nat) (n : String) (ps : List ESV.Param) (hn : nameOK n = true) (hnr : n ≠ Gen.op_return ∨ cx.cp.ret = none)
+    {s : St} {items : List LItem} {s' : St}
     (h : opStmt n ps s = .ok (items, s')) (env : Src.Env) (he : EnvOK cx env) :
-    SimpleOK cx items (fun k b => Src.tr fuel [] env (.op n (convParams ps)) k b) ∧ SameStk s s' := by
+    SimpleOK cx items (fun k b => Src.tr fuel cx.sm env (.op n (convParams ps)) k b) ∧ SameStk s s' := by
   simp only [opStmt, bind_ok, pure_ok] at h
   obtain ⟨o, s1, h1, h2⟩ := h
   simp only [Prod.mk.injEq] at h2
   obtain ⟨rfl, rfl⟩ := h2
   obtain ⟨rfl, rfl⟩ := genOp_spec h1
   simp only [nameOK, Bool.and_eq_true, Bool.not_eq_true'] at hn
-  have htr : ∀ k b, Src.tr fuel [] env (.op n (convParams ps)) k b =
-      if Beh.endsFlow n then b.push (.halt ⟨n, convParams ps⟩) else b.push (.emit ⟨n, convParams ps⟩ k) := by
-    intro k b; rw [Src.tr]; simp only [he.1, substEv_nil]
+  have htr : ∀ k b, Src.tr fuel cx.sm env (.op n (convParams ps)) k b =
+      if Beh.endsFlow n then b.push (.halt (Src.substEv env.subst ⟨n, convParams ps⟩))
+      else b.push (.emit (Src.substEv env.subst ⟨n, convParams ps⟩) k) := by
+    intro k b; rw [Src.tr]
   refine ⟨⟨?_, ?_, ?_, ?_, ?_, ?_⟩, sameStk_tickedOp _ _⟩
   · simp [lastNotCtx, isCtxL, hn.1]
   · intro x hx root e
@@ -54,18 +56,18 @@ theorem op_simple (cx : Cx) (fuel : Nat) (n : String) (ps : List ESV.Param) (hn 
   · intro k b
     simp only [htr]; split <;> exact Pushes.push _ _
   intro r i0 hp hpre k b
-  have hit : itemAt cx.rs ⟨r, i0⟩ = some (.op ⟨s.opc + 1, n, ps⟩) := by simpa using hp.item (d := 0) rfl
-  have hstep := lab_op hit hn.2
-  simp only [hpre, Bool.not_false, Bool.and_true] at hstep
+  have hit : ItemC cx.cp cx.rs ⟨r, i0⟩ (.op ⟨s.opc + 1, n, ps⟩) := by simpa using hp.item (d := 0) rfl
+  have hstep := lab_op hit hn.2 hnr
+  simp only [hpre, Bool.not_false, Bool.and_true, he.ev] at hstep
   simp only [htr]
   by_cases hf : Beh.endsFlow n = true
   · simp only [hf, if_true] at hstep ⊢
-    obtain ⟨a1, a2⟩ := tbl_push b (.halt ⟨n, convParams ps⟩)
+    obtain ⟨a1, a2⟩ := tbl_push b (.halt (Src.substEv env.subst ⟨n, convParams ps⟩))
     intro hag m j _
     rw [a2]
     exact R2.halt hstep (nodeStep_of (agree_last hag a1))
   · simp only [hf, Bool.false_eq_true, if_false] at hstep ⊢
-    obtain ⟨a1, a2⟩ := tbl_push b (.emit ⟨n, convParams ps⟩ k)
+    obtain ⟨a1, a2⟩ := tbl_push b (.emit (Src.substEv env.subst ⟨n, convParams ps⟩) k)
     intro hag m j hcont
     rw [a2]
     have hfalls : falls [LItem.op ⟨s.opc + 1, n, ps⟩] = true := by
@@ -76,17 +78,19 @@ theorem op_simple (cx : Cx) (fuel : Nat) (n : String) (ps : List ESV.Param) (hn 
       simp [falls, needsEndJump, Comp.endsFlow, endsName, h2]
     exact R2.emit hstep (nodeStep_of (agree_last hag a1)) (by simpa [LPos.next] using (hcont hfalls).1)
 
-theorem op_piece (cx : Cx) (fuel : Nat) (n : String) (ps : List ESV.Param) (hn : nameOK n = true) {s : St} {items : List LItem} {s' : St}
+theorem op_piece (cx : Cx) (fuel : Nat) (n : String) (ps : List ESV.Param) (hn : nameOK n = true) (hnr : n ≠ Gen.op_return ∨ cx.cp.ret = none)
+    {s : St} {items : List LItem} {s' : St}
     (h : opStmt n ps s = .ok (items, s')) (env : Src.Env) (he : EnvOK cx env) :
-    PieceOK cx items s s' (fun k b => Src.tr fuel [] env (.op n (convParams ps)) k b) env := by
-  obtain ⟨h1, h2⟩ := op_simple cx fuel n ps hn h env he
+    PieceOK cx items s s' (fun k b => Src.tr fuel cx.sm env (.op n (convParams ps)) k b) env := by
+  obtain ⟨h1, h2⟩ := op_simple cx fuel n ps hn hnr h env he
   exact h1.piece h2 env
 
 /-- a context op and the op under it -/
 theorem ctx_simple (cx : Cx) (c : String) (cp : ESV.Param) (n : String) (ps : List ESV.Param) (hc : isCtx c = true)
-    (hn : nameOK n = true) (oc oo : Nat)
+    (hn : nameOK n = true) (hnr : n ≠ Gen.op_return) (oc oo : Nat) (en ec : Ev)
+    (hen : (⟨n, convParams (ps.map cx.cp.sub)⟩ : Ev) = en) (hec : (⟨c, convParams ([cp].map cx.cp.sub)⟩ : Ev) = ec)
     (trf : Nat → Src.B → Src.B × Nat)
-    (htr : ∀ k b, trf k b = ((b.push (.emit ⟨n, convParams ps⟩ k)).1.push (.emit ⟨c, [convParam cp]⟩ (b.push (.emit ⟨n, convParams ps⟩ k)).2))) :
+    (htr : ∀ k b, trf k b = ((b.push (.emit en k)).1.push (.emit ec (b.push (.emit en k)).2))) :
     SimpleOK cx [.op ⟨oc, c, [cp]⟩, .op ⟨oo, n, ps⟩] trf := by
   simp only [nameOK, Bool.and_eq_true, Bool.not_eq_true'] at hn
   have hgrow : ∀ k b, Pushes b (trf k b).1 := by
@@ -100,33 +104,35 @@ theorem ctx_simple (cx : Cx) (c : String) (cp : ESV.Param) (n : String) (ps : Li
   · simp
   · rfl
   intro r i0 hp hpre k b
-  have hit0 : itemAt cx.rs ⟨r, i0⟩ = some (.op ⟨oc, c, [cp]⟩) := by simpa using hp.item (d := 0) rfl
-  have hit1 : itemAt cx.rs ⟨r, i0 + 1⟩ = some (.op ⟨oo, n, ps⟩) := hp.item (d := 1) rfl
+  have hit0 : ItemC cx.cp cx.rs ⟨r, i0⟩ (.op ⟨oc, c, [cp]⟩) := by simpa using hp.item (d := 0) rfl
+  have hit1 : ItemC cx.cp cx.rs ⟨r, i0 + 1⟩ (.op ⟨oo, n, ps⟩) := hp.item (d := 1) rfl
   have hcj : (isJump c || isTest c) = false := by
     cases hj : (isJump c || isTest c) with
     | false => rfl
     | true => have := jt_not_ctx c hj; rw [hc] at this; cases this
-  have hs0 := lab_op hit0 hcj
+  have hcr : c ≠ Gen.op_return := by
+    intro e; rw [e] at hc; revert hc; decide
+  have hs0 := lab_op hit0 hcj (.inl hcr)
   rw [ctx_not_ends c hc] at hs0
-  simp only [Bool.false_and, Bool.false_eq_true, if_false] at hs0
-  have hs1 := lab_op hit1 hn.2
+  simp only [Bool.false_and, Bool.false_eq_true, if_false, hec] at hs0
+  have hs1 := lab_op hit1 hn.2 (.inl hnr)
   have hac : afterCtxL cx.rs ⟨r, i0 + 1⟩ = true := by
-    rw [afterCtxL_succ, hit0]; simpa [isCtxL] using hc
-  simp only [hac, Bool.not_true, Bool.and_false, Bool.false_eq_true, if_false] at hs1
+    rw [afterCtxL_itemC hit0]; simpa [isCtxL] using hc
+  simp only [hac, Bool.not_true, Bool.and_false, Bool.false_eq_true, if_false, hen] at hs1
   rw [htr]
-  obtain ⟨a1, a2⟩ := tbl_push b (.emit ⟨n, convParams ps⟩ k)
-  generalize b.push (Step.emit ⟨n, convParams ps⟩ k) = B1 at a1 a2 ⊢
+  obtain ⟨a1, a2⟩ := tbl_push b (.emit en k)
+  generalize b.push (Step.emit en k) = B1 at a1 a2 ⊢
   obtain ⟨b1, i1⟩ := B1
   simp only at a1 a2
   subst a2
-  obtain ⟨c1, c2⟩ := tbl_push b1 (.emit ⟨c, [convParam cp]⟩ (tbl b).length)
+  obtain ⟨c1, c2⟩ := tbl_push b1 (.emit ec (tbl b).length)
   intro hag m j hcont
   simp only
   rw [c2, a1]
-  have hN1 : cx.N[(tbl b).length]? = some (.emit ⟨n, convParams ps⟩ k) := by
+  have hN1 : cx.N[(tbl b).length]? = some (.emit en k) := by
     rw [hag.2 _ (Nat.le_refl _) (by rw [c1, a1]; simp), c1, a1]
     simp
-  have hN2 : cx.N[(tbl b).length + 1]? = some (.emit ⟨c, [convParam cp]⟩ (tbl b).length) := by
+  have hN2 : cx.N[(tbl b).length + 1]? = some (.emit ec (tbl b).length) := by
     rw [hag.2 _ (by omega) (by rw [c1, a1]; simp), c1, a1]
     simp
   have hfalls : falls [LItem.op ⟨oc, c, [cp]⟩, LItem.op ⟨oo, n, ps⟩] = true := by
@@ -135,14 +141,9 @@ theorem ctx_simple (cx : Cx) (c : String) (cp : ESV.Param) (n : String) (ps : Li
   have hk := (hcont hfalls).1
   have e1 : R2 cx m j ⟨r, i0 + 1⟩ (tbl b).length :=
     R2.emit hs1 (nodeStep_of hN1) (by simpa [LPos.next, Nat.add_assoc] using hk)
-  simpa [convParams] using R2.emit (j := j) hs0 (nodeStep_of hN2) (by simpa [LPos.next] using e1.1)
-
-theorem ctx_piece (cx : Cx) (c : String) (cp : ESV.Param) (n : String) (ps : List ESV.Param) (hc : isCtx c = true)
-    (hn : nameOK n = true) (oc oo : Nat) (s s' : St) (hs : SameStk s s') (env : Src.Env)
-    (trf : Nat → Src.B → Src.B × Nat)
-    (htr : ∀ k b, trf k b = ((b.push (.emit ⟨n, convParams ps⟩ k)).1.push (.emit ⟨c, [convParam cp]⟩ (b.push (.emit ⟨n, convParams ps⟩ k)).2))) :
-    PieceOK cx [.op ⟨oc, c, [cp]⟩, .op ⟨oo, n, ps⟩] s s' trf env :=
-  (ctx_simple cx c cp n ps hc hn oc oo trf htr).piece hs env
+  have hlen : (tbl b ++ [Step.emit en k]).length = (tbl b).length + 1 := by simp
+  rw [hlen]
+  exact R2.emit (j := j) hs0 (nodeStep_of hN2) (by simpa [LPos.next] using e1.1)
 
 /-- nothing -/
 theorem nil_piece (cx : Cx) (s : St) (env : Src.Env) : PieceOK cx [] s s (fun k b => (b, k)) env := by
